@@ -20,6 +20,7 @@ func init() {
 	register(&Rule{ID: "UPD-7", Doc: "what is recorded is what was written: in every function registered as a field update operator, a Changes.Record(path, x) that is dominated by a bsonkit.Put(doc, path, y, ...) for the same path records y itself (or reads the value back with bsonkit.Get) - never the previous value of the field, which is what min/max/rename have in hand as well", Run: ruleUpd7})
 	register(&Rule{ID: "WIN-9", Doc: "distinct results are always sorted and de-duplicated: in bsonkit.Collect a return that is not dominated by the sort is reachable only over an edge on which the distinct parameter is false (no other shortcut, e.g. on the number of documents, may skip the sort: one document can contribute many array elements)", Run: ruleWin9})
 	register(&Rule{ID: "TXN-6", Doc: "a per-item write error does not abort the transaction: the callbacks handed to useTransaction return as their error only what a Transaction method returned as its error, never the Error field of a Result (useTransaction aborts on a callback error, which would throw away the items of the batch that did succeed)", Run: ruleTxn6})
+	register(&Rule{ID: "WATCH-3", Doc: "nothing is delivered after a drop but the invalidation: in Stream.next every store of an oplog event into s.event lies behind the false edge of a test of s.dropped (the test comes before the scan for the next event, in every round of the loop); the only store on the true side is the invalidate event", Run: ruleWatch3})
 	register(&Rule{ID: "GFS-8", Doc: "bucket configuration is fixed at construction: the fields files, chunks, markers and chunkSize of Bucket are written by NewBucket only (a per-upload option that is stored in the bucket changes every later upload and breaks the resume of suspended ones)", Run: ruleGfs8})
 }
 
@@ -77,36 +78,64 @@ func ruleFlag4(c *Ctx, r *Reporter, which int) {
 	n := 0
 	for _, t := range targets {
 		matched := map[string]bool{}
-		for _, fn := range c.repoFuncs() {
-			allInstrs(fn, func(in ssa.Instruction) {
-				ci, ok := in.(ssa.CallInstruction)
-				if !ok || calleeObj(ci.Common()) != t.callee || t.argIdx >= len(ci.Common().Args) {
-					return
-				}
-				var entry *flagEntry
-				owner := ""
-				for _, nm := range ownerNames(fn, plainFuncName) {
-					nm = strings.TrimSuffix(nm, "$closure")
-					if e, ok := t.table[nm]; ok && entry == nil {
-						e := e
-						entry, owner = &e, nm
+		// call sites of the helper and, where a site forwards its own parameter (an unexported wrapper such as
+		// flush(final) { ... s.upload(final) }), the call sites of that wrapper
+		type want struct {
+			callee *types.Func
+			argIdx int
+		}
+		work := []want{{t.callee, t.argIdx}}
+		done := map[want]bool{}
+		for len(work) > 0 && len(done) < 8 {
+			w := work[0]
+			work = work[1:]
+			if done[w] {
+				continue
+			}
+			done[w] = true
+			for _, fn := range c.repoFuncs() {
+				allInstrs(fn, func(in ssa.Instruction) {
+					ci, ok := in.(ssa.CallInstruction)
+					if !ok || calleeObj(ci.Common()) != w.callee || w.argIdx >= len(ci.Common().Args) {
+						return
 					}
-				}
-				key := fmt.Sprintf("%s in %s", t.label, closureNeutral(plainFuncName(fn)))
-				if entry == nil {
-					r.trivial(key, c.pos(in.Pos()), "a call site outside the confirmed table: not judged")
-					return
-				}
-				v := resolveHelperValue(ci.Common().Args[t.argIdx])
-				b, isConst := constBool(v)
-				if !isConst {
-					r.trivial(key, c.pos(in.Pos()), "the flag is computed, not a constant: not judged")
-					return
-				}
-				n++
-				matched[owner] = true
-				r.check(b == entry.want, key, c.pos(in.Pos()), fmt.Sprintf("%v: %s", entry.want, entry.why), fmt.Sprintf("the flag is %v where %v is required: %s", b, entry.want, entry.why))
-			})
+					v := resolveHelperValue(ci.Common().Args[w.argIdx])
+					key := fmt.Sprintf("%s in %s", t.label, closureNeutral(plainFuncName(fn)))
+					if p, isParam := unspill(v).(*ssa.Parameter); isParam && p.Parent() != nil {
+						g := p.Parent()
+						if obj, ok := g.Object().(*types.Func); ok && !obj.Exported() && !theHelpers.escaped[g] {
+							for i, gp := range g.Params {
+								if gp == p {
+									work = append(work, want{obj, i})
+								}
+							}
+							r.trivial(key, c.pos(in.Pos()), "the flag is forwarded from the wrapper's own parameter: judged at the wrapper's call sites")
+							return
+						}
+					}
+					var entry *flagEntry
+					owner := ""
+					for _, nm := range ownerNames(fn, plainFuncName) {
+						nm = strings.TrimSuffix(nm, "$closure")
+						if e, ok := t.table[nm]; ok && entry == nil {
+							e := e
+							entry, owner = &e, nm
+						}
+					}
+					if entry == nil {
+						r.trivial(key, c.pos(in.Pos()), "a call site outside the confirmed table: not judged")
+						return
+					}
+					b, isConst := constBool(v)
+					if !isConst {
+						r.trivial(key, c.pos(in.Pos()), "the flag is computed, not a constant: not judged")
+						return
+					}
+					n++
+					matched[owner] = true
+					r.check(b == entry.want, key, c.pos(in.Pos()), fmt.Sprintf("%v: %s", entry.want, entry.why), fmt.Sprintf("the flag is %v where %v is required: %s", b, entry.want, entry.why))
+				})
+			}
 		}
 		var names []string
 		for nm := range t.table {
@@ -581,4 +610,75 @@ func ruleTxn6(c *Ctx, r *Reporter) {
 		})
 	}
 	r.guard(n, 20, "useTransaction call sites with a function literal")
+}
+
+// ---- WATCH-3 -----------------------------------------------------------------------------
+
+func ruleWatch3(c *Ctx, r *Reporter) {
+	fn := c.lookupSSA(pkgLungo, "Stream.next")
+	droppedF := c.field(pkgLungo, "Stream", "dropped")
+	eventF := c.field(pkgLungo, "Stream", "event")
+	if fn == nil || droppedF == nil || eventF == nil {
+		r.bad("anchor:Stream.next/dropped/event", "-", "not found")
+		return
+	}
+	// tests of s.dropped: the successor on which dropped is false / true
+	var notDropped, isDropped []*ssa.BasicBlock
+	coneInstrs(fn, func(in ssa.Instruction) {
+		iff, ok := in.(*ssa.If)
+		if !ok || len(iff.Block().Succs) != 2 {
+			return
+		}
+		cond, neg := iff.Cond, false
+		if u, ok := cond.(*ssa.UnOp); ok && u.Op == token.NOT {
+			cond, neg = u.X, true
+		}
+		ld, ok := cond.(*ssa.UnOp)
+		if !ok || ld.Op != token.MUL {
+			return
+		}
+		if _, ok := fieldAddrOf(ld.X, droppedF); !ok {
+			return
+		}
+		t, f := iff.Block().Succs[0], iff.Block().Succs[1]
+		if neg {
+			t, f = f, t
+		}
+		isDropped = append(isDropped, t)
+		notDropped = append(notDropped, f)
+	})
+	if len(notDropped) == 0 {
+		r.bad("Stream.next:dropped test", c.pos(fn.Pos()), "Stream.next never tests s.dropped: a dropped namespace does not end the stream")
+		return
+	}
+	domBy := func(set []*ssa.BasicBlock, b *ssa.BasicBlock) bool {
+		for _, s := range set {
+			if s == b || (s.Parent() == b.Parent() && s.Dominates(b)) {
+				// a successor with several predecessors is not "behind the edge"
+				if len(s.Preds) == 1 {
+					return true
+				}
+			}
+		}
+		return false
+	}
+	n := 0
+	coneInstrs(fn, func(in ssa.Instruction) {
+		st, ok := in.(*ssa.Store)
+		if !ok {
+			return
+		}
+		if _, ok := fieldAddrOf(st.Addr, eventF); !ok {
+			return
+		}
+		if st.Parent() != fn {
+			return // a helper's store is judged through its call (not needed today)
+		}
+		if domBy(isDropped, st.Block()) {
+			return // the invalidate event itself
+		}
+		n++
+		r.check(domBy(notDropped, st.Block()), "Stream.next:event delivered only if not dropped", c.pos(st.Pos()), "the delivery lies behind a test that found s.dropped false", "an event can be delivered without s.dropped having been tested in this round: after the drop event the stream goes on delivering events of a re-created namespace instead of the invalidation")
+	})
+	r.guard(n, 1, "deliveries of an oplog event in Stream.next")
 }
